@@ -383,6 +383,22 @@ class Checker:
         inp = {"X": X.tolist(), "tind": None if tind is None else tind.tolist(),
                "tind_dtype": None if tind is None else str(tind.dtype), "layout": layout}
         sig0 = {"layout": layout, "subset": how}
+        if tind is not None and how == "subset" and fixed is None and len(tind) > 0 and mpname == "affine":
+            # the same subset as a boolean mask (the affine mapping indexes its per-cell arrays directly, so NumPy
+            # accepts a mask wherever a sorted index array is accepted; the isoparametric mapping does not)
+            mask = np.zeros(nt, dtype=bool)
+            mask[tind] = True
+            ctx.count("cell-subset-as-boolean-mask")
+            for name in ("F", "DF", "invDF", "detDF"):
+                try:
+                    a, b_ = np.asarray(getattr(mp, name)(X, tind)), np.asarray(getattr(mp, name)(X, mask))
+                    okm = a.shape == b_.shape and np.array_equal(a, b_)
+                except Exception as ex:
+                    okm = False
+                if not okm:
+                    self.viol(f"{name} with the cell subset given as boolean mask differs from the same subset as "
+                              f"index array", mpname, dict(inp, mask=mask.tolist()), dict(sig0, what="mask", fn=name))
+                    break
         xo = geo.F(X, cells)
         DFo = geo.DF(X, cells)
         deto = np.linalg.det(np.moveaxis(DFo, (0, 1), (-2, -1)))
@@ -473,6 +489,22 @@ class Checker:
         inp = {"s": s.tolist(), "find": None if find is None else find.tolist(),
                "find_dtype": None if find is None else str(find.dtype), "layout": layout}
         sig0 = {"layout": layout, "subset": how, "facets": True}
+        if find is not None and how == "subset" and len(find) > 0 and mpname == "affine":
+            fmask = np.zeros(nf, dtype=bool)
+            fmask[find] = True
+            ctx.count("facet-subset-as-boolean-mask")
+            for name in ("G", "detDG"):
+                try:
+                    a, b_ = np.asarray(getattr(mp, name)(s, find)), np.asarray(getattr(mp, name)(s, fmask))
+                    okm = a.shape == b_.shape and np.array_equal(a, b_)
+                except NotImplementedError:
+                    okm = True
+                except Exception as ex:
+                    okm = False
+                if not okm:
+                    self.viol(f"{name} with the facet subset given as boolean mask differs from the same subset as "
+                              f"index array", mpname, dict(inp, mask=fmask.tolist()), dict(sig0, what="mask", fn=name))
+                    break
         scale = float(np.max(np.abs(geo.xn))) + 1.0
         try:
             G = np.array(mp.G(s, find))
@@ -890,6 +922,17 @@ def build_corr(ck, reqs, post):
                         find = m.t2f[i, cells]
                         nn = mp.normals(np.zeros((d, len(cells), 1)), np.arange(len(cells)), find, m.t2f[:, cells])
                         nrm[(q, i)] = nn[:, q, 0]
+                        # the way the facet bases call it: GLOBAL cell numbers and the whole t2f (a restricted
+                        # mapping ignores the cell numbers it is given, as for F / DF / invDF)
+                        ng = mp.normals(np.zeros((d, len(cells), 1)), cells, find, m.t2f)
+                        ck.ctx.count("normals:restricted-mapping-global-numbers")
+                        if ng.shape != nn.shape or not np.allclose(ng, nn, atol=1e-14):
+                            ck.ctx.violation("normals of a mapping restricted to a cell subset (MappingAffine(mesh, "
+                                             "tind=cells)) depend on the cell numbers passed per call",
+                                             {"mesh": meshes.mesh_descr(m), "cells": cells.tolist(), "local_facet": i,
+                                              "with_local_numbers": nn[:, :, 0].T.tolist(),
+                                              "with_global_numbers": ng[:, :, 0].T.tolist()},
+                                             {"what": "normals-restricted", "cls": type(m).__name__})
                     else:
                         nn = mp.normals(Y, np.array([c]), np.array([f]), m.t2f)
                         nrm[(q, i)] = nn[:, 0, 0]
